@@ -8,6 +8,7 @@ import Lomond.Model.Frame
 import Lomond.Model.Http
 import Lomond.Model.Core
 import Lomond.Model.Persist
+import Lomond.Model.Handshake
 import Lomond.Model.Proxy
 import Lomond.Model.Transport
 
@@ -289,6 +290,54 @@ def runXport (line : String) : String :=
        ":now=" ++ toString s.now])
   | _ => "bad-op"
 
+/-! ### C10: `http ...` operations (response parsing, `on_response`, `build_request`, base64) -/
+
+def showDeflate : Option Http.DeflateCfg → String
+  | none => "-"
+  | some d => s!"{d.decompressWbits}.{d.compressWbits}.{b2s d.resetDecompress}.{b2s d.resetCompress}"
+
+def showResponse (r : Http.Response) : String :=
+  "ver=" ++ showStr r.httpVer ++ " code=" ++ Http.showStatus r.statusCode ++ " status=" ++ showStr r.status ++
+  " hdrs=" ++ ",".intercalate (r.headers.map (fun p => showStr p.1 ++ ":" ++ showStr p.2))
+
+def showSpecRequest : Option Spec.Request → String
+  | none => "malformed"
+  | some q => "m=" ++ hexOfBytes q.method ++ " t=" ++ hexOfBytes q.target ++ " v=" ++ hexOfBytes q.version ++
+      " hdrs=" ++ ",".intercalate (q.headers.map (fun p => hexOfBytes p.1 ++ ":" ++ hexOfBytes p.2))
+
+/-- comma-separated hex strings; `-` stands for the empty string, the empty text for the empty list -/
+def hexList (s : String) : List Bytes :=
+  if s = "" then [] else (s.splitOn ",").map (fun t => if t = "-" then [] else hexD t)
+
+def runHttp (args : List String) : String :=
+  match args with
+  | ["resp", strict, chal, hx] =>
+    let r := Http.parseResponse (hexD hx)
+    let out := match Http.onResponse (strict = "1") (hexD chal) r with
+      | .error m => "err:" ++ showStr m
+      | .ok a => "ok:" ++ (match a.protocol with | none => "-" | some p => "p" ++ showStr p) ++ ":" ++ showDeflate a.deflate
+    showResponse r ++ " res=" ++ out
+  | "req" :: toks =>
+    let port := kv toks "port" "-"
+    let url : Handshake.Url :=
+      { secure := kv toks "secure" "0" = "1", host := hexD (kv toks "host" ""),
+        port := if port = "-" then none else some (natOf port),
+        path := hexD (kv toks "path" ""), query := hexD (kv toks "query" "") }
+    let hdrs := (hexList (kv toks "hdrs" "")).zip (hexList (kv toks "vals" ""))
+    let c : Handshake.Client :=
+      { url := url, agent := hexD (kv toks "agent" ""), protocols := hexList (kv toks "protos" ""),
+        customHeaders := hdrs, compress := kv toks "compress" "0" = "1" }
+    let key := Handshake.b64encode (hexD (kv toks "rnd" ""))
+    let req := Http.buildRequest (c.reqCfg key)
+    hexOfBytes req ++ " spec:" ++ showSpecRequest (Spec.parseRequest req)
+  | ["parsereq", hx] => showSpecRequest (Spec.parseRequest (hexD hx))
+  | ["b64", hx] => hexOfBytes (Handshake.b64encode (hexD hx))
+  | ["b64d", hx] =>
+    match Handshake.b64decode (hexD hx) with
+    | none => "error"
+    | some b => "ok " ++ hexOfBytes b
+  | _ => "bad-op"
+
 def handle (line : String) : String :=
   if line.startsWith "core " then runCore (line.drop 5).toString
   else if line.startsWith "persist " then runPersist (line.drop 8).toString
@@ -297,6 +346,7 @@ def handle (line : String) : String :=
   else
     match line.splitOn " " with
     | "utf8" :: args => runUtf8 args
+    | "http" :: args => runHttp args
     | _ => "bad-op"
 
 end Lomond.Driver
